@@ -413,6 +413,8 @@ package varlink
 //@   requires [nn] s != nil
 //@   modifies gDlOk, gSetDl
 //@   ghostset at typeassert#1 : gDlOk = !res1
+//@   assert [deadline-value C15] at call(Add)#1 : arg1 == timeout
+//@   assert [deadline-target C15] at call(SetDeadline)#1 : arg0 == s.listener
 //@   ensures [armed C15] result == nil ==> gDlOk
 //@   ensures [calls C15] gSetDl == old(gSetDl) || gSetDl == old(gSetDl) + 1
 
